@@ -1,0 +1,12 @@
+//go:build verif
+
+package tequila
+
+// Contracts checked by /verif (vcgo). Comment-only: no executable code.
+
+// names of types and packages do not contain the edge separator
+//@ spec Plain(s string) bool := !Contains(s, "->")
+
+//@ func FullGraph.MergeHeaderFile
+//@ requires fullGraph != nil
+//@ requires forall s string :: {merge(s)} Plain(merge(s))
